@@ -125,8 +125,9 @@ func realMain() int {
 		}
 		rel, _ := filepath.Rel(mirror, p)
 		dst := filepath.Join(*flagRepo, rel)
-		if _, err := os.Stat(dst); err != nil {
-			b, _ := os.ReadFile(p)
+		b, _ := os.ReadFile(p)
+		if cur, err := os.ReadFile(dst); err != nil || string(cur) != string(b) {
+			// the mirror in /verif/contracts is the contract text of record
 			overlay[dst] = b
 			res.Overlaid = append(res.Overlaid, rel)
 		}
@@ -210,6 +211,7 @@ func realMain() int {
 	type unit struct {
 		con *Contract
 		sw  *Sweep
+		nb  *Sweep
 	}
 	var units []unit
 	hasProp := func(ps []string) bool {
@@ -229,6 +231,9 @@ func realMain() int {
 		if c.Trusted || (c.Target == nil && c.Sig != nil && len(c.Impls) == 0) {
 			continue
 		}
+		if c.Thorough && *flagTier != "thorough" {
+			continue
+		}
 		if hasProp(c.Props) && strings.Contains(c.Fn.Name(), *flagUnit) {
 			units = append(units, unit{con: c})
 		}
@@ -236,6 +241,11 @@ func realMain() int {
 	for _, s := range db.sweeps {
 		if hasProp(s.Props) && strings.Contains(s.Name, *flagUnit) {
 			units = append(units, unit{sw: s})
+		}
+	}
+	for _, s := range db.noblock {
+		if hasProp(s.Props) && strings.Contains(s.Name, *flagUnit) {
+			units = append(units, unit{nb: s})
 		}
 	}
 	closable := map[string]bool{}
@@ -309,6 +319,14 @@ func realMain() int {
 			ur.Props = u.con.Props
 			ur.Pos = strings.TrimPrefix(u.con.Pos, *flagRepo+"/")
 			finals = x.verifyContract(u.con)
+		} else if u.nb != nil {
+			x.unit = "noblock:" + x.fnShort(u.nb.Target)
+			ur.Name = x.unit
+			ur.Kind = "structural"
+			ur.Target = x.fnShort(u.nb.Target)
+			ur.Props = u.nb.Props
+			x.checkNoBlock(u.nb.Target)
+			finals = []*State{newState()}
 		} else {
 			x.unit = "sweep:" + x.fnShort(u.sw.Target)
 			ur.Name = x.unit
